@@ -635,9 +635,9 @@ pub fn wire_tables(repo: &str, out: &mut Out) {
         // normalisation calls present in the serialiser macro
         let src = std::fs::read_to_string(format!("{defs}/validity_info.rs")).unwrap_or_default();
         let squeezed: String = src.chars().filter(|c| !c.is_whitespace()).collect();
-        if squeezed.contains("$date.replace_millisecond(0)?.to_offset(UtcOffset::UTC).format(&Rfc3339)?") {
-            writeln!(w, "(* validity_info.rs: insert_date! formats `$date.replace_millisecond(0)?.to_offset(UtcOffset::UTC).format(&Rfc3339)?` *)\nDefinition validity_info_normalises : bool := true.").unwrap();
-            out.ok("wire_validity_info_normalise", "replace_millisecond(0), to_offset(UTC), Rfc3339");
+        if squeezed.contains("$date.replace_millisecond(0)?.checked_to_offset(UtcOffset::UTC).ok_or(Error::UtcOutOfRange)?.format(&Rfc3339)?") {
+            writeln!(w, "(* validity_info.rs: insert_date! formats `$date.replace_millisecond(0)?.checked_to_offset(UtcOffset::UTC).ok_or(Error::UtcOutOfRange)?.format(&Rfc3339)?` *)\nDefinition validity_info_normalises : bool := true.").unwrap();
+            out.ok("wire_validity_info_normalise", "replace_millisecond(0), checked_to_offset(UTC) or Error::UtcOutOfRange, Rfc3339");
         } else {
             out.fail("wire_validity_info_normalise", "the date formatting chain in insert_date! changed");
         }
